@@ -13,6 +13,7 @@ def run(ctx):
     quick = ctx.tier == "quick"
     scs = scen.c01_table(rng, "s%d" % ctx.seed, 120 if quick else 1500)
     scs += scen.c01_concurrent(rng, "s%d" % ctx.seed, 30 if quick else 400)
+    scs = scen.with_props(rng, scs)       # application properties travel with the message unaltered (v5 subscribers)
     ctx.cov["rule"] = ("seeded scenarios: (a) delivery-function tables - random subscription tables (filters x QoS x NL x RAP x id, v3 and v5 "
                        "subscribers), publications from another client / the subscriber itself / the API, both delivery modes, "
                        "barrier via sentinel; (b) concurrent numbered publishers with a static table. Every recorded trace is validated "
